@@ -402,6 +402,11 @@ class Check:
         self.violations = []      # (signature, what, replay-dict)
         self.known_hits = []
         self.known = [k for k in load_known().get("findings", []) if k.get("property") == pid]
+        try:
+            for sig in json.loads(os.environ.get("VERIF_EXTRA_KNOWN", "{}")).get(pid, []):
+                self.known.append({"property": pid, "id": "dev-" + sig[:20], "signature": sig, "what": "(development) " + sig})
+        except ValueError:
+            pass
         self.distinct = set()
         self.hist = {}
 
